@@ -21,6 +21,7 @@ import (
 	"sync/atomic"
 	"time"
 
+	"github.com/goatcms/goatcore/app"
 	"github.com/goatcms/goatcore/filesystem"
 	"github.com/goatcms/goatcore/filesystem/filespace/memfs"
 	"github.com/goatcms/goatcore/filesystem/fshelper"
@@ -75,6 +76,32 @@ func c08Desc(l []*c08Node) []interface{} {
 }
 
 var c08Names = []string{"a", "b", "c", "d.txt", "e.go", "f", "g h", "i-j", "k.tar.gz", "l", "m", "n", "o", "p", "q", "r"}
+
+// names a careless "is this a real entry?" test, a normalisation or a prefix comparison would get
+// wrong: leading dot(s) that are not "." / "..", names that are prefixes of one another or differ
+// in case only, leading/trailing blanks, bytes that are not UTF-8, control and pattern characters,
+// a long name.  None contains "/"; none is "." or ".." (no filespace lists those).
+var c08OddNames = []string{".a", ".hidden", "...", "..a", ".. ", "a.", "ab", "a.b", "a2", "A", " a", "a ", " ", "\xff\xfe", "\xc5\xbc",
+	"a\nb", "a\tb", "a\\b", "*", "?", "%41", "-", "~", "a~", "#a#", "D:", "F:x", strings.Repeat("L", 200)}
+
+func init() { c08Names = append(c08Names, c08OddNames...) }
+
+// c08GenOdd: every odd name as a file ("fd/"), as a directory with files below it ("dd/"), and a
+// few of them at the top
+func c08GenOdd(rng *RNG) []*c08Node {
+	fd := &c08Node{Name: "fd", Dir: true}
+	dd := &c08Node{Name: "dd", Dir: true}
+	for _, n := range c08OddNames {
+		fd.Ch = append(fd.Ch, &c08Node{Name: n})
+		d := &c08Node{Name: n, Dir: true, Ch: []*c08Node{{Name: "x"}, {Name: c08OddNames[rng.Intn(len(c08OddNames))]}}}
+		if rng.Chance(30) {
+			d.Ch = append(d.Ch, &c08Node{Name: ".sub", Dir: true, Ch: []*c08Node{{Name: ".y"}}})
+		}
+		dd.Ch = append(dd.Ch, d)
+	}
+	return []*c08Node{{Name: ".t"}, {Name: ".d", Dir: true, Ch: []*c08Node{{Name: ".x"}, {Name: "x"}}}, {Name: "..."}, {Name: " a"},
+		fd, dd, {Name: "a "}, {Name: "..a", Dir: true}}
+}
 
 func c08GenSmall(rng *RNG, depth, maxFan int) []*c08Node {
 	n := rng.Intn(maxFan + 1)
@@ -220,6 +247,86 @@ type c08Run struct {
 	DelayMode int // 0 none, 1 random yields/sleeps, 2 additionally hold consumers in the gap until close is announced
 	Seed      uint64
 	Index     int
+	Start     string // argument of Run: "" (= "./"), "./" or a directory of the tree spelled "x/y/" or "./x/y/"
+	Scope     bool   // the loop is given an event scope (KillSlot registered on its Kill and Error events)
+	KillOn    string // the callback on this item triggers the scope event before it goes on ("" = never)
+	KillEvt   int    // 0 = app.KillEvent, 1 = app.ErrorEvent
+}
+
+// c08Scope is the smallest app.EventScope: listeners by event id, Trigger calls them in order
+type c08Scope struct {
+	mu sync.Mutex
+	m  map[interface{}][]app.EventCallback
+}
+
+func (s *c08Scope) On(id interface{}, cb app.EventCallback) {
+	s.mu.Lock()
+	if s.m == nil {
+		s.m = map[interface{}][]app.EventCallback{}
+	}
+	s.m[id] = append(s.m[id], cb)
+	s.mu.Unlock()
+}
+
+func (s *c08Scope) Trigger(id interface{}, data interface{}) error {
+	s.mu.Lock()
+	l := append([]app.EventCallback(nil), s.m[id]...)
+	s.mu.Unlock()
+	for _, cb := range l {
+		if err := cb(data); err != nil {
+			return err
+		}
+	}
+	return nil
+}
+
+// base path of the walk as the code spells it, and the entries of the directory it starts in
+func (r *c08Run) base() string {
+	if r.Start == "" {
+		return "./"
+	}
+	return r.Start
+}
+
+func (r *c08Run) startEntries() []*c08Node {
+	cur := r.Root
+	np := c08Norm(r.Start)
+	if np == "" {
+		return cur
+	}
+	for _, seg := range strings.Split(np, "/") {
+		var next *c08Node
+		for _, n := range cur {
+			if n.Name == seg && n.Dir {
+				next = n
+			}
+		}
+		if next == nil {
+			return nil
+		}
+		cur = next.Ch
+	}
+	return cur
+}
+
+// the directory whose listing is the first thing the walk does, as c08TreeFS names it
+func (r *c08Run) startDir() string {
+	if np := c08Norm(r.Start); np != "" {
+		return np
+	}
+	return "."
+}
+
+// all directories of the tree as Run arguments ("x/y/")
+func c08AllDirs(base string, l []*c08Node) []string {
+	var out []string
+	for _, n := range l {
+		if n.Dir {
+			out = append(out, base+n.Name+"/")
+			out = append(out, c08AllDirs(base+n.Name+"/", n.Ch)...)
+		}
+	}
+	return out
 }
 
 func c08Hash(s string, salt uint64) uint64 {
@@ -254,7 +361,7 @@ func (r *c08Run) expected() []string {
 			}
 		}
 	}
-	rec("./", r.Root)
+	rec(r.base(), r.startEntries())
 	return out
 }
 
@@ -274,7 +381,7 @@ func (r *c08Run) accLists() (facc, dacc []string) {
 			}
 		}
 	}
-	rec("./", r.Root)
+	rec(r.base(), r.startEntries())
 	return
 }
 
@@ -287,6 +394,7 @@ type c08Obs struct {
 	Panic     string
 	ErrHit    bool // the injected error was actually returned to the loop
 	InjSeen   bool // the injected error itself is in Errors() right after Wait()
+	KillHit   bool // the scope event was triggered (by the callback on KillOn)
 	Yields    int32
 	Gaps      int32
 	ClosedEvt int32
@@ -323,6 +431,8 @@ func (r *c08Run) exec() (obs c08Obs) {
 		closedCh   = make(chan struct{})
 		closedOnce sync.Once
 		cbErrHit   int32
+		killHit    int32
+		sc         = &c08Scope{}
 	)
 	delay := func(point string) {
 		if r.DelayMode == 0 {
@@ -379,6 +489,16 @@ func (r *c08Run) exec() (obs c08Obs) {
 			mu.Lock()
 			obs.Items = append(obs.Items, prefix+p)
 			mu.Unlock()
+			if r.KillOn != "" && r.KillOn == prefix+p {
+				atomic.AddInt32(&killHit, 1)
+				if r.KillEvt == 1 {
+					sc.Trigger(app.ErrorEvent, errors.New("scope error event"))
+				} else {
+					sc.Trigger(app.KillEvent, nil)
+				}
+				// this callback is still running: Wait() must not return during this pause
+				time.Sleep(150 * time.Microsecond)
+			}
 			delay("callback")
 			runtime.Gosched()
 			var err error
@@ -420,8 +540,12 @@ func (r *c08Run) exec() (obs c08Obs) {
 			}
 			done <- rr
 		}()
-		loop := fsloop.NewLoop(ld, nil)
-		loop.Run("")
+		var es app.EventScope
+		if r.Scope {
+			es = sc
+		}
+		loop := fsloop.NewLoop(ld, es)
+		loop.Run(r.Start)
 		loop.Wait()
 		if atomic.LoadInt32(&cur) != 0 {
 			atomic.AddInt32(&late, 1)
@@ -459,6 +583,7 @@ func (r *c08Run) exec() (obs c08Obs) {
 	obs.MaxConc = atomic.LoadInt32(&max)
 	obs.Late = atomic.LoadInt32(&late)
 	obs.ErrHit = atomic.LoadInt32(&cbErrHit) > 0 || atomic.LoadInt32(&tfs.errHit) > 0
+	obs.KillHit = atomic.LoadInt32(&killHit) > 0
 	return
 }
 
@@ -530,7 +655,8 @@ func (r *c08Run) desc(obs *c08Obs) map[string]interface{} {
 	}
 	return map[string]interface{}{"index": r.Index, "op": "run", "kind": r.Kind, "tree": root, "consumers": r.C, "producents": r.P,
 		"dirfilter": r.HasDF, "filefilter": r.HasFF, "ondir": r.OnDir, "onfile": r.OnFile, "salt": r.Salt,
-		"cb_error_on": r.CbErr, "readdir_error_on": r.RdErr, "gomaxprocs": r.GMP, "delay_mode": r.DelayMode, "run_seed": r.Seed,
+		"cb_error_on": r.CbErr, "readdir_error_on": r.RdErr,
+		"start": r.Start, "scope": r.Scope, "scope_event_on": r.KillOn, "scope_event": map[int]string{0: "kill", 1: "error"}[r.KillEvt], "gomaxprocs": r.GMP, "delay_mode": r.DelayMode, "run_seed": r.Seed,
 		"observed": items, "max_concurrent": obs.MaxConc, "errors": obs.NErrors, "hang": obs.Hang, "panic": obs.Panic}
 }
 
@@ -575,7 +701,17 @@ func (r *c08Run) check(o *Out, emit bool) {
 		// run may announce its close while this run's callback is installed
 		o.Stat("runs_with_stray_or_missing_close_event")
 	}
-	if !injected || !obs.ErrHit {
+	if r.Start != "" {
+		o.Stat("runs_with_start_path")
+	}
+	if r.Scope {
+		o.Stat("runs_with_scope")
+	}
+	selCase, subCase := "CSel", "CSub"
+	if r.Start != "" {
+		selCase, subCase = "CSelAt "+coqStr(r.base()), "CSubAt "+coqStr(r.base())
+	}
+	if (!injected || !obs.ErrHit) && !obs.KillHit {
 		o.Stat("obs_ok")
 		if obs.NErrors != 0 {
 			o.Fail("no-spurious-error", fmt.Sprintf("Errors() has %d entries although nothing failed", obs.NErrors), "C08-spurious", d)
@@ -585,25 +721,33 @@ func (r *c08Run) check(o *Out, emit bool) {
 		}
 		if emit {
 			facc, dacc := r.accLists()
-			o.AddCase(fmt.Sprintf("CSel %s %s %s %s %s %s %s %s", c08CoqTrees(r.Root), coqBool(r.HasDF), coqBool(r.HasFF), coqBool(r.OnDir),
+			o.AddCase(fmt.Sprintf("%s %s %s %s %s %s %s %s %s", selCase, c08CoqTrees(r.startEntries()), coqBool(r.HasDF), coqBool(r.HasFF), coqBool(r.OnDir),
 				coqBool(r.OnFile), coqStrList(facc), coqStrList(dacc), c08Items(obs.Items)), d, key, nontrivial)
 		} else {
 			o.CountEval(key, nontrivial)
 		}
 		return
 	}
-	o.Stat("obs_err")
-	if obs.NErrors == 0 {
-		o.Fail("error-reported", "a callback/listing error was returned to the loop but Errors() is empty", "C08-error-lost", d)
-	} else if !obs.InjSeen {
-		o.Fail("error-reported", "a callback/listing error was returned to the loop but it is not in Errors() when Wait() returns (only the cancellation is)", "C08-error-lost", d)
+	if obs.KillHit {
+		o.Stat("obs_scope_event")
+	}
+	if injected && obs.ErrHit {
+		o.Stat("obs_err")
+		if obs.KillHit {
+			o.Stat("obs_err_and_scope_event")
+		}
+		if obs.NErrors == 0 {
+			o.Fail("error-reported", "a callback/listing error was returned to the loop but Errors() is empty", "C08-error-lost", d)
+		} else if !obs.InjSeen {
+			o.Fail("error-reported", "a callback/listing error was returned to the loop but it is not in Errors() when Wait() returns (only the cancellation is)", "C08-error-lost", d)
+		}
 	}
 	if !c08SubMultiset(obs.Items, exp) {
 		o.Fail("at-most-once", "callbacks are not a sub-multiset of the selected set: "+c08Diff(exp, obs.Items), "C08-at-most-once", d)
 	}
 	if emit {
 		facc, dacc := r.accLists()
-		o.AddCase(fmt.Sprintf("CSub %s %s %s %s %s %s %s %s", c08CoqTrees(r.Root), coqBool(r.HasDF), coqBool(r.HasFF), coqBool(r.OnDir),
+		o.AddCase(fmt.Sprintf("%s %s %s %s %s %s %s %s %s", subCase, c08CoqTrees(r.startEntries()), coqBool(r.HasDF), coqBool(r.HasFF), coqBool(r.OnDir),
 			coqBool(r.OnFile), coqStrList(facc), coqStrList(dacc), c08Items(obs.Items)), d, key, nontrivial)
 	} else {
 		o.CountEval(key, nontrivial)
@@ -616,6 +760,9 @@ func c08GenRun(rng *RNG, tier string, i int) *c08Run {
 	if i%100 == 7 {
 		k = 22 // at least one tree wider than the channel capacity per 100 runs
 	}
+	if i%100 == 13 {
+		k = 24 // at least one tree with every odd name per 100 runs
+	}
 	switch {
 	case k < 4:
 		r.Kind, r.Root = "empty", nil
@@ -624,8 +771,19 @@ func c08GenRun(rng *RNG, tier string, i int) *c08Run {
 	case k < 22:
 		r.Kind, r.Root = "wide60", c08GenWide(rng, 40+rng.Intn(40), rng.Intn(8))
 	case k < 24 && (tier == "thorough" || i%100 == 7):
-		// producers block on the full channel (capacity 1000)
-		r.Kind, r.Root = "wide1500", c08GenWide(rng, 1500, rng.Intn(3)*600)
+		// producers block on the full channel (capacity 1000); which of the two queues overflows is
+		// not left to chance: the three forced runs of a quick check are files only / directories
+		// only / both, with few slow consumers so that the queue really fills up
+		switch (i / 100) % 3 {
+		case 0:
+			r.Kind, r.Root = "wide1500", c08GenWide(rng, 1500, rng.Intn(3)*600)
+		case 1:
+			r.Kind, r.Root = "wide1500", c08GenWide(rng, 30, 1300)
+		default:
+			r.Kind, r.Root = "wide1500", c08GenWide(rng, 1500, 1200)
+		}
+	case k < 27:
+		r.Kind, r.Root = "odd", c08GenOdd(rng)
 	default:
 		r.Kind, r.Root = "small", c08GenSmall(rng, 3, 5)
 	}
@@ -646,6 +804,44 @@ func c08GenRun(rng *RNG, tier string, i int) *c08Run {
 	r.OnFile = rng.Chance(90)
 	r.GMP = []int{1, 2, 4, 16}[rng.Intn(4)]
 	r.DelayMode = rng.Intn(3)
+	if r.Kind == "wide1500" && i%100 == 7 {
+		// the forced wide runs: the overflowing queue is consumed by one or two slow consumers and
+		// nothing is filtered away, so that more than ChanSize paths are pending
+		r.C, r.DelayMode = 1+rng.Intn(2), 1
+		switch (i / 100) % 3 {
+		case 0:
+			r.OnFile, r.HasFF = true, false
+		case 1:
+			r.OnDir, r.HasDF = true, false
+		default:
+			r.OnFile, r.OnDir, r.HasFF, r.HasDF = true, true, false, false
+		}
+		r.Scope = rng.Bool()
+		return r // the whole tree, no error, no scope event
+	}
+	// where the walk starts: mostly Run(""), sometimes "./" spelled out or a directory of the tree
+	// (accepted by the filters or not: they are not asked about the start), with and without "./"
+	if dirs := c08AllDirs("", r.Root); rng.Chance(30) {
+		switch {
+		case len(dirs) == 0 || rng.Chance(20):
+			r.Start = "./"
+		case rng.Bool():
+			r.Start = dirs[rng.Intn(len(dirs))]
+		default:
+			r.Start = "./" + dirs[rng.Intn(len(dirs))]
+		}
+	}
+	r.Scope = rng.Chance(35)
+	if exp := r.expected(); r.Scope && len(exp) > 0 && rng.Chance(45) {
+		// a scope Kill/Error event arrives while a callback runs; half of the time that callback
+		// then fails: its error was returned to the loop and has to be listed like any other
+		r.KillOn = exp[rng.Intn(len(exp))]
+		r.KillEvt = rng.Intn(2)
+		if rng.Bool() {
+			r.CbErr = r.KillOn
+		}
+		return r
+	}
 	if rng.Chance(20) {
 		exp := r.expected()
 		if rng.Bool() && len(exp) > 0 {
@@ -662,7 +858,7 @@ func c08GenRun(rng *RNG, tier string, i int) *c08Run {
 			}
 			r.OnDir = sv
 			if len(dirs) == 0 || rng.Chance(25) {
-				r.RdErr = "."
+				r.RdErr = r.startDir()
 			} else {
 				r.RdErr = dirs[rng.Intn(len(dirs))]
 			}
@@ -806,14 +1002,28 @@ func runC08(o *Out, rng *RNG, tier string, replay string) {
 		"a third of the runs additionally holding consumers in the gap until close is announced, 20%% with an injected callback or listing error; "+
 		"oracles: callback multiset = independently computed selected set (sub-multiset when an error was injected), max concurrent callbacks <= Consumers, "+
 		"no callback running or starting after Wait(), injected error => Errors() non-empty, no error => Errors() empty, watchdog 30 s; "+
-		"every run is also a Coq case: observed callback list vs Model.Loop.sel_list on (tree, filter tables)", rep, n)
+		"every run is also a Coq case: observed callback list vs Model.Loop.sel_list on (tree, filter tables); "+
+		"(iii) dimensions added by the coverage audit: names with leading dots / blanks / look-alikes / non-UTF-8 / 200 bytes (a tree with all of them once per 100 runs), "+
+		"the walk started at \"\", \"./\" or any directory (x/y/ and ./x/y/), an event scope in a third of the runs with a Kill/Error event raised from inside a callback "+
+		"(which fails itself half of the time: that error must be listed; Wait() must cover the running callback), the file queue / the directory queue / both overflowing with 1-2 slow consumers; "+
+		"(iv) error-position sweep: on one tree the error on every callback and every listing x Producents 1/2/16 x Consumers 1/3, then a scope event from every callback; "+
+		"(v) error storm: 4000 mixed + 40000 producer-listing walks with 1-2 consumers at GOMAXPROCS >= 2 (the injected error must be in Errors() the moment Wait() returns); "+
+		"(vi) the callers fshelper.Copy and fsi18loader.Load on generated trees with a directory filter / base path / scope and one failing listing, read, write or mkdir: nil => exactly the selected files (keys) arrived, a failure that happened => an error is returned", rep, n)
 	only := replayIndex(replay)
 	if only < 0 {
 		c08Forced(o, rep)
 	}
 	stormRng := rng.Fork()
+	sweepRng, entryRng := rng.Fork(), rng.Fork()
 	if only < 0 {
 		c08ErrorStorm(o, stormRng, tier)
+		c08Sweep(o, sweepRng)
+		ne := 80
+		if tier == "thorough" {
+			ne = 2000
+		}
+		c08CopyProbe(o, entryRng, ne)
+		c08LoadProbe(o, entryRng, ne)
 	}
 	wideEmitted := 0
 	for i := 0; i < n; i++ {
